@@ -27,6 +27,12 @@ package crypto
 //@ func (*base64.Encoding).DecodeString
 //@   trusted
 //@   benign
+// Canonical means: the segment IS the raw base64url encoding of the bytes it decodes to (the decoder alone is
+// more lenient than that: it skips CR and LF even in strict mode). Stated per segment over the decoder's and
+// the encoder's results; the loop is unrolled (3 segments).
+//@ func (*base64.Encoding).EncodeToString
+//@   trusted
+//@   pure heap
 //@ func CheckCompactJWS
 //@   prop C17 C06
 //@   safety
@@ -35,9 +41,13 @@ package crypto
 //@   call (*base64.Encoding).DecodeString #1 requires [each-segment-decoded-strictly-as-raw-base64url] arg(0) == ret(call (base64.Encoding).Strict #1)
 //@        && same(arg(call (base64.Encoding).Strict #1, 0), *base64.RawURLEncoding) && arg(1) == string(segment)
 //@        && segment == ret(call bytes.Split #1)[$iter1]
+//@   call (*base64.Encoding).EncodeToString #1 requires [the-decoded-bytes-are-encoded-again] arg(0) == base64.RawURLEncoding && arg(1) == ret(call (*base64.Encoding).DecodeString #1).0
+//@        && isNilIface(ret(call (*base64.Encoding).DecodeString #1).1) && arg(call (*base64.Encoding).DecodeString #1, 1) == string(segment)
 //@   ensures [three-segments-all-canonical] isNilIface(result) ==> arg(call bytes.Split #1, 0) == token && len(arg(call bytes.Split #1, 1)) == 1 && arg(call bytes.Split #1, 1)[0] == 46
 //@        && len(ret(call bytes.Split #1)) == 3 && $iter1 == 3
 //@   ensures [no-segment-failed-to-decode] isNilIface(result) ==> isNilIface(ret(call (*base64.Encoding).DecodeString #1).1)
+//@   ensures [each-segment-is-what-its-bytes-encode-to] isNilIface(result) ==> ret(call (*base64.Encoding).EncodeToString #1) == string(ret(call bytes.Split #1)[2])
+//@   ensures [a-segment-that-is-not-its-own-encoding-is-refused] did(call (*base64.Encoding).EncodeToString #1) && ret(call (*base64.Encoding).EncodeToString #1) != arg(call (*base64.Encoding).DecodeString #1, 1) ==> !isNilIface(result)
 
 //@ func JWTKidAlg
 //@   prop C17
